@@ -70,7 +70,7 @@ func c11Subnets(t *testing.T) (string, []uint32) {
 	}
 	subnets := filepath.Join(root, "internal", "test_assets", "phantom_subnets.toml")
 	gens := []uint32{1, 2, 957}
-	if os.Getenv("VERIF_C11_FOREIGN") == "1" { // generations that run into the C14 findings (owned by another builder)
+	if os.Getenv("VERIF_C11_FOREIGN") != "0" { // generations that ran into the C14 findings (zero total weight, leading-zero networks) before their repair
 		b, _ := os.ReadFile(subnets)
 		extra := "\n    [Networks.1001]\n        Generation = 1001\n        [[Networks.1001.WeightedSubnets]]\n            Weight = 0\n            Subnets = [\"192.122.190.0/24\", \"2001:48a8:687f:1::/64\"]\n" +
 			"\n    [Networks.1002]\n        Generation = 1002\n        [[Networks.1002.WeightedSubnets]]\n            Weight = 1\n            Subnets = [\"0.1.2.0/24\", \"64:ff9b::/96\"]\n"
@@ -157,6 +157,12 @@ func (p *panicLog) Write(b []byte) (int, error) {
 	return len(b), nil
 }
 
+func (p *panicLog) peek() string {
+	p.mu.Lock()
+	defer p.mu.Unlock()
+	return p.buf.String()
+}
+
 func (p *panicLog) take() string {
 	p.mu.Lock()
 	defer p.mu.Unlock()
@@ -219,22 +225,41 @@ func (c *c11Reg) httpFuzz() {
 		servers = append(servers, srv)
 	}
 	client := &http.Client{Timeout: 2 * time.Second}
-	xff := []string{"", "1.2.3.4", "1.2.3.4, 5.6.7.8", " , ", "garbage", "::1", "2001:db8::1, 127.0.0.1", ",", "1.2.3.4,", strings.Repeat("9", 300)}
-	send := func(srv *httptest.Server, method, path string, body []byte, hdr string, chunked bool, kind string) {
-		var rd io.Reader = bytes.NewReader(body)
-		if chunked {
-			rd = noLenReader{bytes.NewReader(body)}
+	patient := &http.Client{Timeout: 15 * time.Second}
+	// X-Forwarded-For: nil = no header; otherwise the header instances in order (the handler takes the
+	// last entry of the last instance, or the one before it when the peer is the local host, as here)
+	xff := [][]string{nil, {""}, {" "}, {","}, {", ,"}, {",,"}, {"\t"}, {" , "}, {"1.2.3.4"}, {"1.2.3.4, 5.6.7.8"}, {"garbage"}, {"::1"},
+		{"2001:db8::1, 127.0.0.1"}, {"1.2.3.4,"}, {",1.2.3.4"}, {"1.2.3.4", ""}, {"1.2.3.4", ","}, {"", "5.6.7.8"}, {"a,b,c,d,e"},
+		{strings.Repeat("9", 300)}, {strings.Repeat(",", 300)}, {"1.2.3.4 , 5.6.7.8 ,"}, {"[::1]:80, 10.0.0.1:80"}}
+	send := func(srv *httptest.Server, method, path string, body []byte, hdr []string, chunked bool, kind string) {
+		mk := func() *http.Request {
+			var rd io.Reader = bytes.NewReader(body)
+			if chunked {
+				rd = noLenReader{bytes.NewReader(body)}
+			}
+			req, err := http.NewRequest(method, srv.URL+path, rd)
+			if err != nil {
+				return nil
+			}
+			if hdr != nil {
+				req.Header["X-Forwarded-For"] = hdr
+			}
+			return req
 		}
-		req, err := http.NewRequest(method, srv.URL+path, rd)
-		if err != nil {
+		req := mk()
+		if req == nil {
 			return
-		}
-		if hdr != "" {
-			req.Header.Set("X-Forwarded-For", hdr)
 		}
 		resp, err := client.Do(req)
 		c.out.Checked()
-		replay := fmt.Sprintf("http|%s|%s|%s|%s|%s|%s", method, path, vlib.Hex(body), strconv.Quote(hdr), vlib.B(chunked), srv.Config.Addr)
+		replay := fmt.Sprintf("http|%s|%s|%s|%s|%s|%s", method, path, vlib.Hex(body), strconv.Quote(strings.Join(hdr, "\n")), vlib.B(chunked), vlib.B(hdr != nil))
+		if err != nil && (errors.Is(err, os.ErrDeadlineExceeded) || strings.Contains(err.Error(), "Timeout")) && !strings.Contains(plog.peek(), "panic") {
+			// no answer within 2 s: a hang or a stall of a loaded machine; the same request again, with patience
+			c.out.Count("http:" + kind + ":slow")
+			if req = mk(); req != nil {
+				resp, err = patient.Do(req)
+			}
+		}
 		if err != nil {
 			report := plog.take()
 			sig, what := "C11:http"+strings.ReplaceAll(path, "/", "-")+":no-status-line", "no HTTP status line: "+err.Error()
@@ -243,6 +268,7 @@ func (c *c11Reg) httpFuzz() {
 				what = "no HTTP status line; " + what
 			} else if errors.Is(err, os.ErrDeadlineExceeded) || strings.Contains(err.Error(), "Timeout") {
 				sig = "C11:http" + strings.ReplaceAll(path, "/", "-") + ":hang"
+				what = "no HTTP status line within 2 s and, sent again, within 15 s"
 			}
 			c.out.OracleFail(sig, what, replay)
 			c.out.Count("http:" + kind + ":no-status")
@@ -253,11 +279,79 @@ func (c *c11Reg) httpFuzz() {
 		c.out.Count(fmt.Sprintf("http:%s:%d", kind, resp.StatusCode))
 		c.sender.Take()
 	}
+	// raw: a request written byte by byte onto a TCP connection, for what net/http's client will not send:
+	// a body shorter than its Content-Length (then the sending side is shut), header lines of odd shapes
+	raw := func(srv *httptest.Server, text []byte, kind string) {
+		replay := "httpraw|" + vlib.Hex(text)
+		attempt := func(limit time.Duration) (string, error) {
+			conn, err := net.DialTimeout("tcp", srv.Listener.Addr().String(), limit)
+			if err != nil {
+				return "", nil // the harness could not connect: says nothing about the handler
+			}
+			defer conn.Close()
+			_ = conn.SetDeadline(time.Now().Add(limit))
+			if _, err := conn.Write(text); err != nil {
+				return "", nil
+			}
+			if tc, ok := conn.(*net.TCPConn); ok {
+				_ = tc.CloseWrite()
+			}
+			line, err := bufio.NewReader(conn).ReadString('\n')
+			if err != nil && line == "" {
+				return "", err
+			}
+			return line, nil
+		}
+		line, err := attempt(2 * time.Second)
+		c.out.Checked()
+		if err != nil && !strings.Contains(plog.peek(), "panic") {
+			c.out.Count("http:" + kind + ":slow")
+			line, err = attempt(15 * time.Second)
+		}
+		if err != nil || (line != "" && !strings.HasPrefix(line, "HTTP/1.")) {
+			report := plog.take()
+			sig, what := "C11:http-raw:no-status-line", fmt.Sprintf("no HTTP status line (got %.40q, err=%v)", line, err)
+			if strings.Contains(report, "panic") {
+				sig, what = crashSig("http-raw", report)
+				what = "no HTTP status line; " + what
+			}
+			c.out.OracleFail(sig, what, replay)
+			c.out.Count("http:" + kind + ":no-status")
+			return
+		}
+		if len(line) >= 12 {
+			c.out.Count("http:" + kind + ":" + line[9:12])
+		}
+		c.sender.Take()
+	}
 	// the request of DESIGN §7 first: a wrapper without registration payload
 	noPayload := vlibc11.Marshal(&pb.C2SWrapper{SharedSecret: c.r.Bytes(32), RegistrationAddress: c.r.Bytes(16)})
 	for _, srv := range servers {
-		send(srv, "POST", "/register-bidirectional", noPayload, "", false, "no-payload")
-		send(srv, "POST", "/register", noPayload, "", false, "no-payload")
+		send(srv, "POST", "/register-bidirectional", noPayload, nil, false, "no-payload")
+		send(srv, "POST", "/register", noPayload, nil, false, "no-payload")
+	}
+	// every header shape on both paths, with a well-formed body
+	wellFormed := vlibc11.Marshal(c.validWrapper(pb.TransportType_Min, &pb.GenericTransportParams{}, 1, true, false))
+	for _, srv := range servers[:2] {
+		for _, hdr := range xff {
+			send(srv, "POST", "/register-bidirectional", wellFormed, hdr, false, "xff")
+			send(srv, "POST", "/register", wellFormed, hdr, false, "xff")
+		}
+	}
+	// body sizes: far larger than any registration; a declared length that the body does not reach
+	big := append(append([]byte(nil), wellFormed...), make([]byte, 1<<20)...)
+	for _, path := range []string{"/register", "/register-bidirectional"} {
+		send(servers[1], "POST", path, big, nil, false, "body-1MiB")
+		send(servers[1], "POST", path, big, nil, true, "body-1MiB-chunked")
+		for _, declared := range []int{len(wellFormed) + 1, len(wellFormed) + 1000, 1 << 30} {
+			for _, sent := range [][]byte{wellFormed, wellFormed[:10], nil} {
+				raw(servers[2], []byte(fmt.Sprintf("POST %s HTTP/1.1\r\nHost: x\r\nContent-Length: %d\r\n\r\n%s", path, declared, sent)), "body-short")
+			}
+		}
+		raw(servers[0], []byte(fmt.Sprintf("POST %s HTTP/1.1\r\nHost: x\r\nContent-Length: %d\r\nX-Forwarded-For:\r\nX-Forwarded-For: ,\r\n\r\n%s", path, len(wellFormed), wellFormed)), "raw-xff")
+		raw(servers[0], []byte(fmt.Sprintf("POST %s HTTP/1.1\r\nHost: x\r\nContent-Length: %d\r\nX-Forwarded-For: 1.2.3.4,\x00\r\n\r\n%s", path, len(wellFormed), wellFormed)), "raw-xff-nul")
+		raw(servers[0], []byte(fmt.Sprintf("POST %s HTTP/1.1\r\nHost: x\r\nTransfer-Encoding: chunked\r\n\r\n5\r\nabc", path)), "chunk-short")
+		raw(servers[0], []byte(fmt.Sprintf("POST %s HTTP/1.0\r\n\r\n", path)), "http10-no-length")
 	}
 	n := vlib.Budget(8000, 120000)
 	for i := 0; i < n; i++ {
@@ -268,7 +362,7 @@ func (c *c11Reg) httpFuzz() {
 		if c.r.Chance(1, 25) {
 			method = []string{"GET", "PUT", "HEAD", "DELETE"}[c.r.Intn(4)]
 		}
-		hdr := ""
+		var hdr []string
 		if c.r.Chance(1, 4) {
 			hdr = xff[c.r.Intn(len(xff))]
 		}
@@ -448,6 +542,140 @@ func (c *c11Reg) dnsDirect() {
 	}
 }
 
+// ---------------------------------------------------------------------------------------------
+// 3a. the byte-level parsers behind the DNS front end, on exact-capacity buffers: frame decoders, TXT
+// decoder, name reader, message reader, and responseFor on whatever the message reader returns. The
+// answers are compared with the Lean models (the theorems *_no_panic / *_terminates are about those).
+
+func (c *c11Reg) parser(entry, line string, nontrivial bool, f func() string) {
+	var ans string
+	res := vlibc11.Guard(func() { ans = f() })
+	c.out.Checked()
+	if res.Hang {
+		ans = "hang"
+	} else if res.Panic != "" {
+		switch vlibc11.Class(res.Panic) {
+		case "slice-out-of-range":
+			ans = "panic slice bounds out of range"
+		case "index-out-of-range":
+			ans = "panic index out of range"
+		default:
+			ans = "panic " + res.Panic
+		}
+	}
+	c.out.Case(line, ans, nontrivial && strings.HasPrefix(ans, "ok"))
+	c.out.Count("parser:" + entry + ":" + strings.Fields(ans + " x")[0])
+	if res.Bad() {
+		c.fail("parser-"+entry, res, line)
+	}
+}
+
+func (c *c11Reg) frameDecoders(p []byte) {
+	p = vlibc11.ExactCap(p)
+	c.parser("rmreq", "codec|rmreq|"+vlib.Hex(p), true, func() string { return vlibc11.OkOrErr(msgformat.RemoveRequestFormat(p)) })
+	c.parser("rmresp", "codec|rmresp|"+vlib.Hex(p), true, func() string { return vlibc11.OkOrErr(msgformat.RemoveResponseFormat(p)) })
+}
+
+func (c *c11Reg) parsers() {
+	// every (buffer length, announced length) pair around the point where the announced length meets the
+	// end of the buffer, for both frame formats
+	for n := 0; n <= 24; n++ {
+		for b := 0; b <= n+2; b++ {
+			p := c.r.Bytes(n)
+			if n > 0 {
+				p[0] = byte(b)
+			}
+			c.frameDecoders(p)
+			if n > 1 {
+				for _, hi := range []byte{0, 1, 0xff} {
+					q := c.r.Bytes(n)
+					q[0], q[1] = hi, byte(b)
+					c.frameDecoders(q)
+				}
+			}
+		}
+	}
+	for _, n := range []int{254, 255, 256, 257, 258} {
+		for _, b := range []int{n - 2, n - 1, n, n + 1} {
+			p := c.r.Bytes(n)
+			p[0] = byte(b)
+			c.frameDecoders(p)
+			q := c.r.Bytes(n)
+			q[0], q[1] = byte(b>>8), byte(b)
+			c.frameDecoders(q)
+		}
+	}
+	for i := 0; i < vlib.Budget(400, 8000); i++ {
+		c.frameDecoders(c.r.Bytes(c.r.Intn(40)))
+	}
+	// TXT character strings: lengths that point at, just before and just behind the end of the buffer
+	for i := 0; i < vlib.Budget(1200, 25000); i++ {
+		var p []byte
+		switch c.r.Intn(3) {
+		case 0:
+			p = c.r.Bytes(c.r.Intn(30))
+		case 1:
+			p = append([]byte(nil), dns.EncodeRDataTXT(c.r.Bytes(c.r.Intn(600)))...)
+			if c.r.Bool() && len(p) > 0 {
+				p[c.r.Intn(len(p))] = byte(c.r.U64())
+			} else {
+				p = p[:c.r.Intn(len(p)+1)]
+			}
+		default:
+			for k := c.r.Intn(5); k >= 0; k-- {
+				n := c.r.Intn(6)
+				p = append(p, byte(n+c.r.Intn(3)-1))
+				p = append(p, c.r.Bytes(n)...)
+			}
+		}
+		p = vlibc11.ExactCap(p)
+		c.parser("dectxt", "codec|dectxt|"+vlib.Hex(p), true, func() string { return vlibc11.OkOrErr(dns.DecodeRDataTXT(p)) })
+	}
+	// the name reader at every kind of offset
+	for i := 0; i < vlib.Budget(2500, 60000); i++ {
+		buf := vlibc11.ExactCap(c.g.NameBytes())
+		pos := c.r.Intn(len(buf) + 2)
+		c.parser("readname", fmt.Sprintf("codec|readname|%s|%d", vlib.Hex(buf), pos), true, func() string {
+			n, at, err := dns.VerifReadName(buf, pos)
+			if err != nil {
+				return "err " + vlibc11.CodecErr(err)
+			}
+			return fmt.Sprintf("ok %s %d", vlibc11.ShowName(n), at)
+		})
+	}
+	// the message reader: noise, plausible headers in front of name-like bytes, real queries bent on the wire
+	domain, _ := dns.ParseName(c11Domain)
+	for i := 0; i < vlib.Budget(2500, 50000); i++ {
+		var buf []byte
+		switch c.r.Intn(4) {
+		case 0:
+			buf = c.r.Bytes(c.r.Intn(40))
+		case 1:
+			buf = []byte{0, 1, 1, 0, 0, byte(c.r.Intn(3)), 0, byte(c.r.Intn(3)), 0, 0, 0, byte(c.r.Intn(2))}
+			buf = append(buf, c.g.NameBytes()...)
+			buf = append(buf, c.r.Bytes(c.r.Intn(16))...)
+		case 2: // counts that promise more than there is
+			buf = queryFor(c.r.Bytes(c.r.Intn(60)), domain, uint16(i), nil)
+			if len(buf) > 12 {
+				buf[4+2*c.r.Intn(4)+1] = byte(c.r.Intn(4))
+				if c.r.Chance(1, 4) {
+					buf[4+2*c.r.Intn(4)] = 0xff
+				}
+			}
+		default:
+			buf = c.g.Mutate(queryFor(c.r.Bytes(c.r.Intn(100)), domain, uint16(i), nil))
+		}
+		buf = vlibc11.ExactCap(buf)
+		c.parser("parse", "codec|parse|"+vlib.Hex(buf), true, func() string {
+			m, err := dns.MessageFromWireFormat(buf)
+			if err != nil {
+				return "err " + vlibc11.CodecErr(err)
+			}
+			return "ok " + vlibc11.ShowMsg(&m)
+		})
+	}
+}
+
 var c11B32 = base32.StdEncoding.WithPadding(base32.NoPadding)
 
 func queryFor(payload []byte, domain dns.Name, id uint16, mut func(m *dns.Message)) []byte {
@@ -528,8 +756,11 @@ func (c *c11Reg) datagrams(pub []byte, n int) [][]byte {
 			d = queryFor(c.r.Bytes(c.r.Intn(100)), domain, uint16(i), nil)
 		case 2: // framed garbage instead of a Noise message
 			p, _ := msgformat.AddRequestFormat(c.r.Bytes(c.r.Intn(120)))
-			if c.r.Chance(1, 3) && len(p) > 0 {
-				p[0] = byte(c.r.U64()) // a length that lies
+			if c.r.Chance(1, 2) && len(p) > 0 { // a length that lies: anything, or off by one or two around the end of the packet
+				p[0] = byte(c.r.U64())
+				if c.r.Chance(2, 3) {
+					p[0] = byte(len(p) - 3 + c.r.Intn(5))
+				}
 			}
 			d = queryFor(p, domain, uint16(i), nil)
 		case 3, 4, 5, 6: // complete registration
@@ -582,12 +813,16 @@ func (f *feedConn) ReadFrom(p []byte) (int, net.Addr, error) {
 	if f.base == 0 {
 		f.base = runtime.NumGoroutine()
 	} else { // let the goroutine that handles the previous datagram finish
-		deadline := time.Now().Add(2 * time.Second)
+		// 2 s is slow (counted), 15 s is a hang: a stall of a loaded machine must not look like one
+		start, slow := time.Now(), false
 		for runtime.NumGoroutine() > f.base {
-			if time.Now().After(deadline) {
+			if d := time.Since(start); d > 15*time.Second {
 				fmt.Fprintf(f.progress, "HANG %d\n", f.next-1)
 				f.base = runtime.NumGoroutine()
 				break
+			} else if d > 2*time.Second && !slow {
+				slow = true
+				fmt.Fprintf(f.progress, "SLOW %d\n", f.next-1)
 			}
 			time.Sleep(20 * time.Microsecond)
 		}
@@ -650,7 +885,12 @@ func TestVerifC11Child(t *testing.T) {
 func (c *c11Reg) dnsChild(t *testing.T) {
 	priv := c.r.Bytes(32)
 	pub := encryption.PubkeyFromPrivkey(priv)
-	in := c.datagrams(pub, vlib.Budget(10000, 150000))
+	c.feedChild(t, priv, c.datagrams(pub, vlib.Budget(10000, 150000)))
+}
+
+// feedChild runs the datagrams through the real RecvAndRespond in child processes; a child that dies
+// names the datagram it was handling (the replay carries the responder's key)
+func (c *c11Reg) feedChild(t *testing.T, priv []byte, in [][]byte) {
 	dir := t.TempDir()
 	inPath, progPath := filepath.Join(dir, "in.txt"), filepath.Join(dir, "progress.txt")
 	var sb strings.Builder
@@ -679,7 +919,9 @@ func (c *c11Reg) dnsChild(t *testing.T) {
 			switch {
 			case strings.HasPrefix(l, "HANG "):
 				k, _ := strconv.Atoi(strings.TrimPrefix(l, "HANG "))
-				c.out.OracleFail("C11:dns-responder:hang", "a datagram was not dealt with within 2 s", "dns|"+hex.EncodeToString(in[k]))
+				c.out.OracleFail("C11:dns-responder:hang", "a datagram was not dealt with within 15 s", "dns|"+hex.EncodeToString(in[k])+"|"+hex.EncodeToString(priv))
+			case strings.HasPrefix(l, "SLOW "):
+				c.out.Count("dns-child:slow")
 			case strings.HasPrefix(l, "DONE "):
 				done = true
 				_, _ = fmt.Sscanf(l, "DONE %d %d", &answers, &callbacks)
@@ -701,7 +943,7 @@ func (c *c11Reg) dnsChild(t *testing.T) {
 			return
 		}
 		sig, what := crashSig("dns-responder", stderr.String())
-		c.out.OracleFail(sig, "the process died while handling a datagram; "+what, "dns|"+hex.EncodeToString(in[last]))
+		c.out.OracleFail(sig, "the process died while handling a datagram; "+what, "dns|"+hex.EncodeToString(in[last])+"|"+hex.EncodeToString(priv))
 		start = last + 1
 	}
 }
@@ -744,10 +986,10 @@ func (c *c11Reg) replay(t *testing.T, path string) {
 				srv.Config.ErrorLog = golog.New(plog, "", 0)
 				srv.Start()
 				req, _ := http.NewRequest(p[1], srv.URL+p[2], bytes.NewReader(unhex(p[3])))
-				if h, err := strconv.Unquote(p[4]); err == nil && h != "" {
-					req.Header.Set("X-Forwarded-For", h)
+				if h, err := strconv.Unquote(p[4]); err == nil && (h != "" || (len(p) > 6 && p[6] == "1")) {
+					req.Header["X-Forwarded-For"] = strings.Split(h, "\n")
 				}
-				resp, err := (&http.Client{Timeout: 2 * time.Second}).Do(req)
+				resp, err := (&http.Client{Timeout: 15 * time.Second}).Do(req)
 				c.out.Checked()
 				if err != nil {
 					sig, what := crashSig("http"+strings.ReplaceAll(p[2], "/", "-"), plog.take())
@@ -756,6 +998,36 @@ func (c *c11Reg) replay(t *testing.T, path string) {
 				} else {
 					fmt.Printf("replay: server ClientConf generation %d: status %d\n", gen, resp.StatusCode)
 					resp.Body.Close()
+				}
+				srv.Close()
+			}
+		case "httpraw":
+			for _, gen := range []uint32{0, 1000000} {
+				s := c.newAPI(gen, true)
+				r := mux.NewRouter()
+				r.HandleFunc("/register", s.register)
+				r.HandleFunc("/register-bidirectional", s.registerBidirectional)
+				plog := &panicLog{}
+				srv := httptest.NewUnstartedServer(r)
+				srv.Config.ErrorLog = golog.New(plog, "", 0)
+				srv.Start()
+				conn, err := net.DialTimeout("tcp", srv.Listener.Addr().String(), 15*time.Second)
+				if err == nil {
+					_ = conn.SetDeadline(time.Now().Add(15 * time.Second))
+					_, _ = conn.Write(unhex(p[1]))
+					if tc, ok := conn.(*net.TCPConn); ok {
+						_ = tc.CloseWrite()
+					}
+					status, rerr := bufio.NewReader(conn).ReadString('\n')
+					c.out.Checked()
+					if rerr != nil && status == "" {
+						sig, what := crashSig("http-raw", plog.take())
+						c.out.OracleFail(sig, "no HTTP status line; "+what, line)
+						fmt.Printf("replay: server ClientConf generation %d: NO STATUS LINE (%v)\n", gen, rerr)
+					} else {
+						fmt.Printf("replay: server ClientConf generation %d: %s", gen, status)
+					}
+					conn.Close()
 				}
 				srv.Close()
 			}
@@ -768,6 +1040,10 @@ func (c *c11Reg) replay(t *testing.T, path string) {
 			c.out.Checked()
 			if res.Bad() {
 				c.fail("register-bidirectional", res, line)
+			}
+		case "dns":
+			if len(p) >= 3 {
+				c.feedChild(t, unhex(p[2]), [][]byte{unhex(p[1])})
 			}
 		case "dnsreq":
 			s := dnsregserver.NewVerifDNSRegServer(c.proc, 1000000, c.logger, c.m)
@@ -806,6 +1082,7 @@ func TestVerifC11Registrar(t *testing.T) {
 	c.httpFuzz()
 	c.httpTable()
 	c.processor()
+	c.parsers()
 	c.dnsDirect()
 	c.dnsChild(t)
 }
